@@ -59,6 +59,9 @@ pub enum Op {
     Rebuild(u8),
     /// ring axioms on (acc, x, y)
     Axioms(Val, Val),
+    /// build the model value again through a public constructor from a non-canonical description (Sc::from_twisted) and
+    /// continue with that value: it must equal acc, be canonical, and behave identically from here on
+    Construct(i16),
 }
 
 #[derive(Clone, Debug, Serialize, Deserialize)]
@@ -332,6 +335,12 @@ where T: Sc + yui::Ring + Divide, for<'a> &'a T: yui::RingOps<T> {
                 ensure!(other == acc, "{what}: (m - y) + y = {:?} != acc {:?} (same ring element {:?})", other, acc, SV::of(&model));
                 check_state(&other, &model, &what)?;
             }
+            Op::Construct(twist) => {
+                let Some(other) = lib::<T, _>(&what, || T::from_twisted(&model, *twist as i64))? else { continue };
+                ensure!(other == acc, "{what}: the same ring element {:?} constructed with twist {twist} is {:?}, which is != acc {:?}", SV::of(&model), other, acc);
+                check_state(&other, &model, &what)?;
+                acc = other;
+            }
             Op::Axioms(v1, v2) => {
                 let (Some(xm), Some(ym)) = (resolve(v1, &k, bits, &model, &hist), resolve(v2, &k, bits, &model, &hist)) else { continue };
                 // keep everything representable: require all reference intermediates to fit
@@ -436,6 +445,7 @@ fn op(ty: Ty, tier: Tier) -> BoxedStrategy<Op> {
         2 => (-3i8..=3, 0u8..40).prop_map(|(d, k)| Op::CmpNear(d, k)),
         1 => (0u8..5).prop_map(Op::Rebuild),
         1 => (val(ty, tier), val(ty, tier)).prop_map(|(a, b)| Op::Axioms(a, b)),
+        2 => prop_oneof![-4i16..=4, any::<i16>()].prop_map(Op::Construct),
     ].boxed()
 }
 
